@@ -261,4 +261,27 @@ theorem format_code_eq_model (e : Int) (m : Nat) : Gen.decimalPlaces e (m : Int)
 theorem format_code_valid (e : Int) (m : Nat) : 0 ≤ Gen.decimalPlaces e (m : Int) ∧ Gen.decimalPlaces e (m : Int) ≤ (m : Int) := by
   rw [format_code_eq_model]; exact decimalPlaces_valid e m
 
+/-- the validator of each solver class as written in /repo's source (translated on every run) -/
+def codeValidator : SolverKind → SolverCfg → Except CfgErr Unit
+  | .vi => Gen.validate_vi | .pi => Gen.validate_pi | .rvi => Gen.validate_rvi
+  | .periodic => Gen.validate_periodic | .semi => Gen.validate_semi
+
+/-- **tie by translation**: the five `__post_init__` validators *as written in /repo* are the model's `validateSolver` -/
+theorem validators_code_eq_model (k : SolverKind) (c : SolverCfg) : codeValidator k c = validateSolver k c := by
+  cases k
+  · exact GenTie.validate_vi_eq c
+  · exact GenTie.validate_pi_eq c
+  · exact GenTie.validate_rvi_eq c
+  · exact GenTie.validate_periodic_eq c
+  · exact GenTie.validate_semi_eq c
+
+/-- hence the code's validators accept exactly the documented domain … -/
+theorem validators_code_iff (k : SolverKind) (c : SolverCfg) : codeValidator k c = .ok () ↔ SolverValid k c := by
+  rw [validators_code_eq_model]; exact validateSolver_iff k c
+
+/-- … and reject with `TypeError` exactly for a non-config problem, `ValueError` otherwise -/
+theorem validators_code_error_class (k : SolverKind) (c : SolverCfg) (e : CfgErr) (h : codeValidator k c = .error e) :
+    (c.problemOk = false → e = .typeError) ∧ (c.problemOk = true → e = .valueError) := by
+  rw [validators_code_eq_model] at h; exact validateSolver_error_class k c e h
+
 end MdpaxV.C20
